@@ -136,8 +136,10 @@ Proof. exact dry_matter_lemma. Qed.
 (* Daily gross assimilation (crop.go:919-978, inside radia): (1) GPHOT >= 0, MAINT >= 0 and GTW = GPHOT + ASPOO >= 0 whenever the
    light-response values DGAC, DGAO are >= 0, the day length is positive, TRREL and the potential maintenance are >= 0 and - on
    days without radiation data - the sunshine duration handed to radia() is >= 0 (checked on every traced crop day);
-   (2) that hypothesis is needed: the missing-value marker -99.9 h gives GPHOT < 0.  This kernel is NOT tied bit for bit
-   (DGAC/DGAO are locals of the unexported radia); its hypothesis and conclusion are evaluated on traces *)
+   (2) that hypothesis is needed: the missing-value marker -99.9 h gives GPHOT < 0.  Tied bit for bit since round 9: the
+   harness carries a verbatim shadow of radia() with a recorder for DGAC/DGAO and the other locals, compares the shadow with the real
+   kernel (hook VerifRadia) and with the run (GPPdaily) on every traced crop day, and C09Corr.assim_check runs assim_of on the
+   recorded locals against GPHOT / MAINT of the real kernel *)
 Theorem C09_assimilation_nonneg_partial :
   (forall (x : as_in (T:=R)),
   0 <= as_dgac x -> 0 <= as_dgao x -> 0 < as_dle x -> 0 <= as_trrel x -> 0 <= as_maint_pot x ->
